@@ -31,6 +31,8 @@ type Addr struct {
 	Glob bool       // single-cell global
 	Owner     types.Type // named struct type owning the root field (for lock discipline)
 	FieldName string
+	Alt       *Addr  // alternative location when AltCond holds (pointer that may denote a slice element)
+	AltCond   string
 }
 
 type Val struct {
@@ -125,6 +127,7 @@ type FnVerifier struct {
 	sentinels  map[string]bool
 	pureApps   []pureApp
 	lemmaMode  bool
+	matTypes   map[string]types.Type // struct types whose slice elements have their address taken as a value (&s[i])
 	strApps    map[string]string
 	targets    []frameTarget
 	decVals    map[*ssa.BasicBlock]Val
@@ -332,6 +335,13 @@ func (fv *FnVerifier) wf(x string, t types.Type, st *State) string {
 		}
 		return "true"
 	case *types.Pointer, *types.Map, *types.Chan:
+		if p, ok := u.(*types.Pointer); ok && fv.isMatType(p.Elem()) {
+			// may be an element reference (negative)
+			if st != nil {
+				return fmt.Sprintf("(< %s %s)", x, st.alloc)
+			}
+			return "true"
+		}
 		if st != nil {
 			return fmt.Sprintf("(and (<= 0 %s) (< %s %s))", x, x, st.alloc)
 		}
@@ -526,6 +536,11 @@ func (fv *FnVerifier) slotType(a *Addr) types.Type {
 }
 
 func (fv *FnVerifier) loadAddr(st *State, a *Addr) string {
+	if a.Alt != nil {
+		main := *a
+		main.Alt = nil
+		return "(ite " + a.AltCond + " " + fv.loadAddr(st, a.Alt) + " " + fv.loadAddr(st, &main) + ")"
+	}
 	var cur string
 	if a.Glob {
 		cur = fv.heapGet(st, a.Arr)
@@ -540,6 +555,21 @@ func (fv *FnVerifier) loadAddr(st *State, a *Addr) string {
 }
 
 func (fv *FnVerifier) storeAddr(st *State, a *Addr, v string) {
+	if a.Alt != nil {
+		// pointer that may denote a slice element: update whichever location it denotes
+		main := *a
+		main.Alt = nil
+		oldMain := fv.heapGet(st, main.Arr)
+		oldAlt := fv.heapGet(st, a.Alt.Arr)
+		fv.storeAddr(st, &main, v)
+		newMain := fv.heapGet(st, main.Arr)
+		st.heap[main.Arr] = oldMain
+		fv.storeAddr(st, a.Alt, v)
+		newAlt := fv.heapGet(st, a.Alt.Arr)
+		fv.heapSet(st, main.Arr, "(ite "+a.AltCond+" "+oldMain+" "+newMain+")")
+		fv.heapSet(st, a.Alt.Arr, "(ite "+a.AltCond+" "+newAlt+" "+oldAlt+")")
+		return
+	}
 	h := fv.heapGet(st, a.Arr)
 	if a.Glob {
 		fv.heapSet(st, a.Arr, fv.updatePath(h, fv.slotType(a), a.Path, v))
